@@ -145,8 +145,8 @@ def finish(res, src, meta, wt, headpatch=None):
         m = dict(meta); m["confirmation"] = res
         json.dump(m, open(os.path.join(dst, "meta.json"), "w"), indent=1)
     else:
-        os.makedirs(os.path.join(ROOT, ".work", "seed-rejected"), exist_ok=True)
-        json.dump(res, open(os.path.join(ROOT, ".work", "seed-rejected", res["seed_id"] + ".json"), "w"), indent=1)
+        os.makedirs("/tmp/mut/rejected", exist_ok=True)
+        json.dump(res, open(os.path.join("/tmp/mut/rejected", res["seed_id"] + ".json"), "w"), indent=1)
     return 0
 
 
